@@ -9,10 +9,17 @@ META = {
              'becomes an assertion failure on a symbolic path instead of a time-out. frame.unmarshal '
              'and the bare table/array/value decoders are explored on arbitrary byte strings and on '
              'valid envelopes whose inner length fields, tags and flag words are arbitrary; decoded '
-             'containers may not have more entries than input bytes (memory clause).'
+             'containers may not have more entries than input bytes (memory clause). Kernel K4 (SMT, '
+             'strings of any length): every regular expression applied by code reachable from the decoders '
+             'is translated from the current source and each unbounded repeat is shown unambiguous, so the '
+             're engine cannot backtrack exponentially on decoded text.'
              % (buffers.FUEL_FACTOR, buffers.FUEL_SLACK),
     'trusted': 'CrossHair + z3; symrt models; the tick instrumentation (AST rewrite, regenerated from '
-               'the current source on every run); replay uses a sys.settrace line budget + wall clock.',
+               'the current source on every run); replay uses a sys.settrace line budget + wall clock; a '
+               'counterexample that passes the (generous) replay budget is re-run with each 4-octet window '
+               'inflated to 0x00ffffff before it is given up as a harness error; K4: z3 sequence/regex theory, '
+               'translation through re._parser, name-based reachability from decode.* / unmarshal / '
+               'frame_parts, CPU-time growth as the replay criterion.',
     'bounds': {
         'quick': 'raw buffers 0..13; per method class envelope + {2, 5} arbitrary argument bytes; '
                  'Queue.Declare / content-header tables: arbitrary 4-byte length, '
